@@ -167,6 +167,27 @@ def injections(gen, cid, o, full=False):
             name = r.choice(["x_custom_prop", "x_foo", "foo_bar", "zzz"])
             mut(lambda x: at(x, path).__setitem__(name, r.choice(["v", 1, True, ["a"], {"k": 1}])),
                 "custom property %s at %s (%s)" % (name, ps, ex["cid"]), True)
+            if maybe(0.35):
+                # present but falsy values are still custom content; multi-underscore and keyword-like names are still names
+                fname = r.choice(["x__double", "x_a_b_c", "x_", "x_type", "x_id", "type_x", "X_UPPER", "x-hyphen-name", "x_\u007f", "x_\U0001F600"])
+                fval = r.choice([0, False, "", 0.0, -0.0, {}, [0], [False], [""], 7.0, 2 ** 53 + 1, 10 ** 21])
+                mut(lambda x: at(x, path).__setitem__(fname, fval),
+                    "custom property %r with the value %r at %s (%s)" % (fname, fval, ps, ex["cid"]), True)
+            if maybe(0.3) and "/<" not in ex["cid"] and "/" in ex["cid"]:
+                # a name the OTHER specification version defines for the same type is custom content here
+                ver0, cls0 = ex["cid"].split("/", 1)
+                other = ("2.1" if ver0 == "2.0" else "2.0") + "/" + cls0
+                if other in gen.classes:
+                    mine = {s0["name"] for s0 in gen.classes[ex["cid"]]["slots"]}
+                    try:
+                        o3 = gen.obj(other, optional_p=1.0)
+                    except (IndexError, ValueError, KeyError):
+                        o3 = {}
+                    cand3 = sorted(k for k in o3 if k not in mine and k not in ("spec_version", "extensions"))
+                    if cand3:
+                        k3 = r.choice(cand3)
+                        mut(lambda x: at(x, path).__setitem__(k3, o3[k3]),
+                            "property %s of the other specification version at %s (%s)" % (k3, ps, ex["cid"]), True)
             if maybe(0.3):
                 # given but empty: nothing custom is stored
                 mut(lambda x: at(x, path).__setitem__(name, r.choice([None, []])),
